@@ -15,11 +15,23 @@ _g('ec_enc_bit_logp', replace=['ec_enc_normalize'])
 _g('ec_enc_icdf', replace=['ec_enc_normalize'])
 _g('ec_enc_icdf16', replace=['ec_enc_normalize'])
 _g('ec_enc_bits', replace=['ec_write_byte_at_end'], unwind=6, cls='F')
-_g('ec_enc_uint', replace=['ec_encode', 'ec_enc_bits'])
+_g('ec_enc_uint', replace=['ec_encode', 'ec_enc_bits', 'ec_read_byte', 'ec_read_byte_from_end', 'ec_dec_normalize'])
 _g('ec_enc_patch_initial_bits')
 PTRDIFF = (r'arithmetic overflow on signed - in \(\(_this->buf \+', 'CBMC 6.11 reports a signed-overflow on any pointer difference with a negative result '
            '(reproduced on a 3-line program); the term is the compile-time type check 0*((dst)-(src)) of OPUS_MOVE')
 _g('ec_enc_shrink', ignore=[PTRDIFF])
 _g('ec_enc_done', replace=['ec_enc_carry_out', 'ec_write_byte_at_end'], unwind=7, cls='F')
 _g('ec_enc_init')
-META = {'enforced_elsewhere': ['ec_write_byte', 'ec_write_byte_at_end', 'ec_enc_carry_out', 'ec_enc_normalize', 'ec_encode', 'ec_enc_bits']}
+def _d(fn, replace=(), cls='P', unwind=0, timeout=300, **kw):
+    d = dict(name=fn, cls=cls, tu='C08_dec.c', entry='h_' + fn, enforce=[fn], replace=list(replace),
+             unwind=unwind, timeout=timeout, what='contract of %s enforced on the real body' % fn)
+    d.update(kw)
+    GROUPS.append(d)
+_d('ec_read_byte')
+_d('ec_read_byte_from_end')
+_d('ec_dec_normalize', replace=['ec_read_byte'], unwind=5, cls='F')
+_d('ec_dec_bit_logp', replace=['ec_dec_normalize'])
+_d('ec_dec_bits', replace=['ec_read_byte_from_end'], unwind=6, cls='F')
+_d('ec_dec_init', replace=['ec_read_byte', 'ec_dec_normalize'])
+_d('ec_dec_icdf', replace=['ec_dec_normalize'])
+META = {'enforced_elsewhere': ['ec_write_byte', 'ec_write_byte_at_end', 'ec_enc_carry_out', 'ec_enc_normalize', 'ec_encode', 'ec_enc_bits', 'ec_read_byte', 'ec_read_byte_from_end', 'ec_dec_normalize']}
